@@ -12,13 +12,18 @@ package main
 //	       | e                                       one pass of timeBasedMetaEntryWalFlush
 //	  r ::= 0 | 1   outcome of `GetWALStats() > MAX_WAL_FILE_SIZE_BYTES` for the appends of this op (the harness sets
 //	                MAX_WAL_FILE_SIZE_BYTES to 2^62 resp. 0 before the op): 1 = every append is followed by a roll-over
-//	       | xb:<m> | xr:<m> | xe:<m>                only as the LAST op and with one shard: a crash INSIDE an operation —
+//	       | xb:<m> | xr:<m> | xe:<m> | xn:<m> | xf:<m>   only as the LAST op and with one shard: a crash INSIDE an operation —
 //	                xb: a block-rotation pass (like b) that dies right after the m-th completed step of rotateBlock
 //	                    (flushBlock ; DeleteWAL of each WAL file ; initNewDpWal); xe: a meta-WAL write (like e) that dies
 //	                    right after the m-th step of Wal.Write (OpenFile of the temp file ; writeBlockToFile ; Sync ; Rename);
 //	                    xr: the writer crashes between two ops as usual, the FIRST restart dies right after the m-th
 //	                    completed step of RecoverWALData (flushBlock of the group ; deleteWalFile of each file — or only
-//	                    the deleteWalFiles of a group whose first WAL file is gone), a second restart recovers completely.  With fewer than m
+//	                    the deleteWalFiles of a group whose first WAL file is gone), a second restart recovers completely;
+//	                    xn: likewise, the FIRST restart dies right after the m-th step of RecoverMNameWALData (FlushMetricNames of
+//	                    the segment ; deleteWalFile of its name WAL — before the repair c10-5 in the opposite order);
+//	                    xf: likewise, the FIRST restart dies BETWEEN THE SYSTEM CALLS of the flushBlock inside RecoverWALData, right
+//	                    after the m-th of FlushSummary (.mbsu append) ; OpenFile(.tso, O_TRUNC) ; OpenFile(.tsg, O_TRUNC) ;
+//	                    Write(.tso) ; Write(.tsg) — the block files are empty or half written then, the WAL files still there.  With fewer than m
 //	                    steps the operation runs to its end.  The steps are found with the crash points that overlaygen
 //	                    inserts into copies of the current source (utils.VerifCrashPoint, as for C07): a first run on a
 //	                    scratch copy logs the points, the real run is killed at the chosen one (VERIF_CRASH_AT).
@@ -51,6 +56,9 @@ package main
 //	                                        block appeared in such a segment
 //	walrecover/metric-name-lost             a metric name whose name-WAL append / segment rotation completed is not in .mnm
 //	walrecover/meta-entry-lost              a segment whose meta entry was written (rotation / meta WAL) is not in metricmeta.json
+//	walrecover/meta-entry-older-than-rotation  a segment that was ROTATED before the crash ends with another entry than the one its
+//	                                        rotation wrote (an older meta-WAL snapshot was replayed behind it: older time range,
+//	                                        fewer blocks and datapoints — queries into the newer part of the segment miss it)
 //	walrecover/wal-left-behind              .wal files remain after recovery
 
 import (
@@ -93,8 +101,12 @@ func init() {
 		c10rWorkerMain(os.Args[2], os.Args[3])
 		os.Exit(0)
 	}
+	if len(os.Args) >= 3 && os.Args[1] == "c10ringestfirst" {
+		c10rIngestFirstWitness(os.Args[2])
+		os.Exit(0)
+	}
 	register(&Suite{Name: "walrecover", Gen: genWalRecover, Exec: execWalRecover, Parallel: 5,
-		Rule: "writer histories (1-3 series over 1-3 shards, WAL flushes, roll-overs incl. > 10 files per block, block and segment rotations, name/meta WAL flushes, single appends > 1 MB) ended by a crash; recovery by the real startup functions in a fresh process; distinct = sha1(op line); non-trivial = at least one completed datapoint"})
+		Rule: "writer histories (1-3 series over 1-3 shards, WAL flushes, roll-overs incl. > 10 files per block, block and segment rotations, name/meta WAL flushes, single appends > 1 MB, a segment rotation after the last meta-WAL write) ended by a crash between two operations, inside a block rotation / a meta-WAL write, or followed by a first restart that dies inside RecoverWALData / between the system calls of its flushBlock / inside RecoverMNameWALData; recovery by the real startup functions in a fresh process; distinct = sha1(op line); non-trivial = at least one completed datapoint"})
 }
 
 // ---------------------------------------------------------------- op line
@@ -107,7 +119,7 @@ type c10rOp struct {
 	roll bool
 	seed uint64
 	n, k int
-	sub  byte // x ops: 'b', 'r', 'e'
+	sub  byte // x ops: 'b', 'r', 'e', 'n', 'f'
 	m    int  // x ops: number of completed steps before the process dies
 }
 
@@ -222,7 +234,7 @@ func c10rParse(line string) (*c10rCase, bool) {
 				return nil, false
 			}
 		case 'x':
-			if len(p) != 2 || len(p[0]) != 1 || !strings.Contains("bre", p[0]) || c.nsh != 1 {
+			if len(p) != 2 || len(p[0]) != 1 || !strings.Contains("brenf", p[0]) || c.nsh != 1 {
 				return nil, false
 			}
 			op.sub = p[0][0]
@@ -626,7 +638,20 @@ func c10rRecover(tsids map[string]uint64, emit func(interface{})) {
 	res = c10rRecovered{}
 	utils.VerifCrashNote("recover")
 
-	// cmd/startup/startup.go:391-393
+	if os.Getenv("VERIF_C10R_INGEST_FIRST") != "" {
+		// WITNESS ONLY (`corr c10ringestfirst`): a datapoint is ingested before the recovery functions run — what cmd/startup
+		// allowed while it started the ingest server before RecoverWALData (repair c10-7; the order is now tied by the
+		// call-order fact C10R.startIngestServer.order).  The first datapoint of a process creates the shards: new WAL files in
+		// the directory that is about to be replayed, and a new (truncated) metrics-meta WAL.
+		th := metrics.GetTagsHolder()
+		th.Insert("k", []byte("late"), jp.String)
+		if err := metrics.EncodeDatapoint([]byte("mlate"), th, 1.0, 1700009999, 50, 0); err != nil {
+			emit(map[string]string{"fatal": "ingest-first: " + err.Error()})
+			os.Exit(3)
+		}
+	}
+
+	// cmd/startup/startup.go startIngestServer
 	metrics.RecoverWALData() // may die inside (VERIF_CRASH_AT)
 	metrics.RecoverMNameWALData()
 	metrics.RecoverMEntryWALData()
@@ -676,6 +701,33 @@ func c10rRecover(tsids map[string]uint64, emit func(interface{})) {
 }
 
 // ---------------------------------------------------------------- parent
+
+// `corr c10ringestfirst '<op line>'`: the writer history of the op line, then a restart in which ONE datapoint is ingested
+// before the recovery functions run, next to a restart without it.  Prints metricmeta.json and the WAL files left of both.
+func c10rIngestFirstWitness(line string) {
+	for _, first := range []string{"", "1"} {
+		dir, _ := os.MkdirTemp("", "verifc10rw")
+		o1, _, err := c10rRunChild("write", dir, []byte(line+"\n"))
+		if err != nil {
+			fmt.Println("writer failed:", err)
+			return
+		}
+		states, _ := c10rParseStates(o1)
+		tsb, _ := json.Marshal(states[0].Tsids)
+		o2, _, err := c10rRunChild("recover", dir, tsb, "VERIF_C10R_INGEST_FIRST="+first)
+		if err != nil {
+			fmt.Println("restart failed:", err)
+			return
+		}
+		_, s2, err := c10rParseRec(o2)
+		if err != nil || s2 == nil {
+			fmt.Println("restart output:", err)
+			return
+		}
+		fmt.Printf("ingest before recovery=%q: metricmeta.json=%v  .wal files left=%v\n", first, s2.Meta, s2.LeftWals)
+		os.RemoveAll(dir)
+	}
+}
 
 type c10rKey struct {
 	mid string
@@ -765,12 +817,36 @@ func c10rIsStep(sub byte) func(string, []string) bool {
 			return fn == "Write" && (c10rHas(calls, "truncate") || c10rHas(calls, "OpenFile") || c10rHas(calls, "writeBlockToFile") ||
 				c10rHas(calls, "Sync") || c10rHas(calls, "Rename"))
 		}
+	case 'n':
+		return func(fn string, calls []string) bool {
+			return fn == "RecoverMNameWALData" && (c10rHas(calls, "deleteWalFile") || c10rHas(calls, "FlushMetricNames"))
+		}
+	case 'f':
+		// the system calls of one flushBlock, in the order of the source: FlushSummary ; OpenFile ×2 ; the Writes that follow them
+		// (the Writes before the OpenFiles go to memory buffers)
+		opens := 0
+		return func(fn string, calls []string) bool {
+			switch {
+			case fn == "flushBlock" && c10rHas(calls, "FlushSummary"):
+				opens = 0
+				return true
+			case fn == "FlushTSOAndTSGFiles" && c10rHas(calls, "OpenFile"):
+				opens++
+				return true
+			case fn == "FlushTSOAndTSGFiles" && opens >= 2 && c10rHas(calls, "Write"):
+				return true
+			}
+			return false
+		}
 	default:
 		return func(fn string, calls []string) bool {
 			return fn == "RecoverWALData" && (c10rHas(calls, "deleteWalFile") || c10rHas(calls, "flushBlock"))
 		}
 	}
 }
+
+// crash ops that kill the FIRST RESTART (the writer dies between two ops as usual)
+func c10rRestartCrash(sub byte) bool { return sub == 'r' || sub == 'n' || sub == 'f' }
 
 func c10rParseStates(o []byte) ([]c10rState, error) {
 	var states []c10rState
@@ -831,7 +907,7 @@ func execWalRecover(line string) Result {
 	data := dir + "/d"
 	_ = os.Mkdir(data, 0o755)
 	var o1 []byte
-	if xop != nil && xop.sub != 'r' {
+	if xop != nil && !c10rRestartCrash(xop.sub) {
 		// scratch run with the crash log: which crash point is the m-th completed step of the last op?
 		scratch := dir + "/scratch"
 		_ = os.Mkdir(scratch, 0o755)
@@ -870,7 +946,7 @@ func execWalRecover(line string) Result {
 	}
 	tsb, _ := json.Marshal(states[0].Tsids)
 	var rec c10rRecovered
-	if xop != nil && xop.sub == 'r' {
+	if xop != nil && c10rRestartCrash(xop.sub) {
 		scratch := dir + "/scratch"
 		if out, err := exec.Command("cp", "-a", data, scratch).CombinedOutput(); err != nil {
 			return fail("cp", fmt.Sprint(err, string(out)))
@@ -879,7 +955,7 @@ func execWalRecover(line string) Result {
 		if _, _, err := c10rRunChild("recover", scratch, tsb, "VERIF_CRASH_LOG="+lg); err != nil {
 			return fail("recovery process (scratch run)", err)
 		}
-		at := c10rFindCrashPoint(lg, "recover", xop.m, c10rIsStep('r'))
+		at := c10rFindCrashPoint(lg, "recover", xop.m, c10rIsStep(xop.sub))
 		var first *c10rRecovered
 		if at != 0 {
 			oc, died, err := c10rRunChild("recover", data, tsb, "VERIF_CRASH_AT="+strconv.Itoa(at))
@@ -918,7 +994,8 @@ func execWalRecover(line string) Result {
 	}
 	crashClass := ""
 	if crashed {
-		crashClass = map[byte]string{'b': "crash-in-block-rotation/", 'r': "crash-in-recovery/", 'e': "crash-in-meta-write/"}[xop.sub]
+		crashClass = map[byte]string{'b': "crash-in-block-rotation/", 'r': "crash-in-recovery/", 'e': "crash-in-meta-write/",
+			'n': "crash-in-name-recovery/", 'f': "crash-in-recovery-flush/"}[xop.sub]
 	}
 
 	res := Result{}
@@ -976,10 +1053,10 @@ func execWalRecover(line string) Result {
 		}
 		st := states[i+1]
 		if op.kind == 'x' { // the operation ran to its end (or xr: nothing happens in the writer)
-			op.kind = map[byte]byte{'b': 'b', 'e': 'e', 'r': 'n'}[op.sub]
-			if op.sub == 'r' {
+			if c10rRestartCrash(op.sub) {
 				continue
 			}
+			op.kind = map[byte]byte{'b': 'b', 'e': 'e'}[op.sub]
 		}
 		if st.Err != "" {
 			return fail("writer op "+strconv.Itoa(i), st.Err)
@@ -1305,16 +1382,9 @@ func execWalRecover(line string) Result {
 			}
 		}
 	}
-	segHasBlock := map[nkey]bool{}
-	for k := range after {
-		segHasBlock[nkey{k.mid, k.seg}] = true
-	}
 	for nk, want := range doneNames {
-		if !segHasBlock[nk] {
-			// latitude: no datapoint of this segment is on disk (none was completed), so its names describe nothing.
-			// (As coded the names ARE dropped then: FlushMetricNames does not create the segment directory.)
-			continue
-		}
+		// (before the repair c10-5 the names of a segment none of whose datapoints is on disk were dropped: FlushMetricNames did
+		// not create the segment directory, and the name WAL was deleted all the same)
 		got := map[string]bool{}
 		for _, n := range rec.Names[fmt.Sprintf("%s/%d", nk.mid, nk.seg)] {
 			got[n] = true
@@ -1326,9 +1396,8 @@ func execWalRecover(line string) Result {
 		}
 	}
 	// segment metadata: every segment whose entry was written — at its rotation, or by the last completed write of
-	// the meta WAL — must have an entry after recovery, equal to one of the written ones (when a segment was rotated
-	// after the last meta-WAL write, recovery appends the older WAL snapshot behind the rotation entry and the reader
-	// keeps the last one: granted, both were logged)
+	// the meta WAL — must have an entry after recovery: the rotation entry if the segment was rotated (it is final; an
+	// older meta-WAL snapshot replayed behind it must not win), else the meta-WAL one
 	// the writer died inside a meta-WAL write: the snapshot that was being written (the shards as they were then) is
 	// accepted as well — the process may have died right after the write became visible
 	newSnap := func(nk nkey, got map[string]int) bool {
@@ -1355,6 +1424,9 @@ func execWalRecover(line string) Result {
 		wl, okW := metaWal[nk]
 		if !ok {
 			pf("meta-entry-lost", fmt.Sprintf("shard %s segment %d: its meta entry was written (rotation or meta WAL) but metricmeta.json has none after recovery", nk.mid, nk.seg))
+		} else if okR && !(got["blocks"] == rot[0] && got["dps"] == rot[1]) && okW && got["blocks"] == wl[0] && got["dps"] == wl[1] {
+			// the entry written by the rotation describes the whole segment; the meta WAL held an older state of it
+			pf("meta-entry-older-than-rotation", fmt.Sprintf("shard %s segment %d was rotated with blocks=%d dps=%d, after recovery its meta entry is the older meta-WAL snapshot blocks=%d dps=%d (and its time range): queries into the newer part of the segment miss it", nk.mid, nk.seg, rot[0], rot[1], got["blocks"], got["dps"]))
 		} else if !(okR && got["blocks"] == rot[0] && got["dps"] == rot[1]) && !(okW && got["blocks"] == wl[0] && got["dps"] == wl[1]) && !newSnap(nk, got) {
 			pf("meta-entry-lost", fmt.Sprintf("shard %s segment %d: meta entry after recovery blocks=%d dps=%d is none of the written ones (rotation %v %v, meta WAL %v %v)", nk.mid, nk.seg, got["blocks"], got["dps"], okR, rot, okW, wl))
 		}
@@ -1469,9 +1541,56 @@ func genWalRecover(r *rand.Rand, n int, tier string) []string {
 					emit(dp(0, false))
 				}
 			}))
-		case i%25 == 5 || i%25 == 13 || i%25 == 21:
-			// a crash INSIDE an operation (one shard): block rotation / first restart's RecoverWALData / meta-WAL write
-			sub := map[int]string{5: "b", 13: "r", 21: "e"}[i%25]
+		case i%25 == 23 || (tier == "thorough" && i%25 == 15):
+			// a segment rotated AFTER the last meta-WAL write: the WAL still holds an older snapshot of that segment (fewer
+			// blocks / datapoints, older time range) when the writer dies; the rotation entry must stay the segment's entry
+			nsh := 1 + r.Intn(2)
+			nser := 1 + r.Intn(2)
+			out = append(out, mk(nsh, []int{1, 2, 1000}[r.Intn(3)], nser, func(ser []int, emit func(string), dp func(int, bool) string) {
+				s0 := r.Intn(nser)
+				emit(dp(s0, false))
+				if r.Intn(2) == 0 {
+					emit("b")
+					emit(dp(s0, false))
+				}
+				emit("e")
+				for k := 0; k < 1+r.Intn(3); k++ {
+					emit(dp(s0, false))
+					if r.Intn(3) == 0 {
+						emit("b")
+					}
+				}
+				emit(fmt.Sprintf("s%d", ser[s0]))
+				if r.Intn(2) == 0 { // the new segment takes data before the crash (but no meta-WAL write)
+					emit(dp(s0, false))
+					emit("f0")
+				}
+			}))
+		case i%25 == 9 || (tier == "thorough" && i%25 == 16):
+			// the FIRST restart dies inside RecoverMNameWALData; names whose name-WAL append completed, with or without a
+			// completed datapoint of their segment
+			nser := 1 + r.Intn(3)
+			out = append(out, mk(1, []int{1, 2, 1000}[r.Intn(3)], nser, func(_ []int, emit func(string), dp func(int, bool) string) {
+				if r.Intn(3) == 0 { // an earlier segment
+					emit(dp(r.Intn(nser), false))
+					emit("s0")
+				}
+				for k := 0; k < 1+r.Intn(3); k++ {
+					emit(dp(r.Intn(nser), false))
+				}
+				emit("n")
+				if r.Intn(2) == 0 {
+					emit("f0")
+				}
+				if r.Intn(3) == 0 {
+					emit(dp(r.Intn(nser), false)) // possibly a new name that is only buffered
+				}
+				emit(fmt.Sprintf("xn:%d", 1+r.Intn(3)))
+			}))
+		case i%25 == 5 || i%25 == 13 || i%25 == 21 || i%25 == 17:
+			// a crash INSIDE an operation (one shard): block rotation / first restart's RecoverWALData / meta-WAL write /
+			// between the system calls of the first restart's flushBlock
+			sub := map[int]string{5: "b", 13: "r", 21: "e", 17: "f"}[i%25]
 			nser := 1 + r.Intn(2)
 			out = append(out, mk(1, []int{2, 3, 1000}[r.Intn(3)], nser, func(_ []int, emit func(string), dp func(int, bool) string) {
 				if r.Intn(2) == 0 { // an earlier rotated block / segment
@@ -1500,6 +1619,9 @@ func genWalRecover(r *rand.Rand, n int, tier string) []string {
 				if sub == "e" {
 					m = 1 + r.Intn(5) // Wal.Write: OpenFile, writeBlockToFile, Sync, Rename
 				}
+				if sub == "f" {
+					m = 1 + r.Intn(6) // FlushSummary, OpenFile ×2, Write ×2
+				}
 				emit(fmt.Sprintf("x%s:%d", sub, m))
 			}))
 		case i%25 == 11:
@@ -1508,7 +1630,7 @@ func genWalRecover(r *rand.Rand, n int, tier string) []string {
 				"walrecover sh=1 cap=2 ser=0 bsh=0 ops=q", "walrecover sh=1 cap=2 ser=0 bsh=0 ops=d1:1700000000:3ff0000000000000:0",
 				"walrecover sh=1 cap=2 ser=0 bsh=1 ops=b", "walrecover sh=1 cap=2 ser=0 bsh=0", "walrecover sh=2 cap=2 ser=0,2 bsh=0 ops=b",
 				"walrecover sh=1 cap=2 ser=0 bsh=0 ops=f2", "walrecover sh=1 cap=2 ser=0 bsh=0 ops=s1", "walrecover sh=1 cap=2 ser=0 bsh=0 ops=b;;b",
-				"walrecover sh=1 cap=2 ser=0 bsh=0 ops=xb:1;b", "walrecover sh=2 cap=2 ser=0 bsh=0 ops=xb:1", "walrecover sh=1 cap=2 ser=0 bsh=0 ops=xq:1", "walrecover sh=1 cap=2 ser=0 bsh=0 ops=xb:0"}
+				"walrecover sh=1 cap=2 ser=0 bsh=0 ops=xb:1;b", "walrecover sh=2 cap=2 ser=0 bsh=0 ops=xb:1", "walrecover sh=2 cap=2 ser=0 bsh=0 ops=xn:1", "walrecover sh=1 cap=2 ser=0 bsh=0 ops=xf:0", "walrecover sh=1 cap=2 ser=0 bsh=0 ops=xq:1", "walrecover sh=1 cap=2 ser=0 bsh=0 ops=xb:0"}
 			out = append(out, bad[r.Intn(len(bad))])
 		default:
 			nsh := 1 + r.Intn(3)
